@@ -22,7 +22,9 @@ ASSUMPTIONS = ["the ambiguity resolver and coercion tail of generate_hunks are c
                "neutral vocabulary (no acronyms, no digits); plural variants off in the theorems"]
 
 CONTEXTS = [("", ""), ("x = ", ";"), ('"', '"'), ("'", "'"), ("(", ")"), ("[", "]"), ("{", "}"), ("a/", "/b"), ("m::", "::n"), ("p.", ".q"),
-            ("f(", ", g)"), ("  ", "  "), ("<", ">"), ("k: ", ","), ("\t", "")]
+            ("f(", ", g)"), ("  ", "  "), ("<", ">"), ("k: ", ","), ("\t", ""),
+            # typographic neighbours: curly quotes, guillemets, em dash, no-break space, a byte-order mark at the start of the text
+            ("\u201c", "\u201d"), ("\u00ab", "\u00bb"), ("\u2014", "\u2014"), ("\u00a0", "\u00a0"), ("\ufeff", " x"), ("é ", " é")]
 SPACEY = {"Title", "Sentence", "LowerSentence", "UpperSentence"}
 FLAT = {"LowerFlat", "UpperFlat"}
 
